@@ -34,7 +34,7 @@ private theorem step_summary (L : Lib) (v : Validator) (m : Mode) (σ : State) (
     simp [this, Out.forwards, hp]
   | http t =>
     cases e with
-    | req connect hs =>
+    | req connect big hs =>
       cases connect with
       | true =>
         by_cases hpl : (m.isHttpProxy && !t) = true
@@ -52,19 +52,24 @@ private theorem step_summary (L : Lib) (v : Validator) (m : Mode) (σ : State) (
           simp [this, State.setPhase, Out.forwards]
           intro c hne; simp [hne]
       | false =>
-        by_cases ha : cid ∈ σ.authd
-        · have : r = (σ, .fwd hs) := by
-            rw [hr]; unfold step; simp [hp, requestheadersHook, ha]
-          simp [this, ha, hp]
-          intro h; cases t <;> simp_all
-        · by_cases hc : credsOk L v m hs = true
-          · have : r = (σ, .fwd (hdrDel hs (authName m))) := by
-              rw [hr]; unfold step; simp [hp, requestheadersHook, ha, authenticateHttp, hc]
-            simp [this, presentsAccepted, hc]
-          · have : r = (σ, .deny (authCode m)) := by
-              rw [hr]; unfold step; simp [hp, requestheadersHook, ha, authenticateHttp, hc]
-            simp [this, Out.forwards, hp]
+        cases big with
+        | true =>
+          have : r = (σ.setPhase cid .closed, .tooLarge) := by rw [hr]; unfold step; simp [hp]
+          simp [this, State.setPhase, Out.forwards]; intro c hne; simp [hne]
+        | false =>
+          by_cases ha : cid ∈ σ.authd
+          · have : r = (σ, .fwd hs) := by
+              rw [hr]; unfold step; simp [hp, requestheadersHook, ha]
+            simp [this, ha, hp]
             intro h; cases t <;> simp_all
+          · by_cases hc : credsOk L v m hs = true
+            · have : r = (σ, .fwd (hdrDel hs (authName m))) := by
+                rw [hr]; unfold step; simp [hp, requestheadersHook, ha, authenticateHttp, hc]
+              simp [this, presentsAccepted, hc]
+            · have : r = (σ, .deny (authCode m)) := by
+                rw [hr]; unfold step; simp [hp, requestheadersHook, ha, authenticateHttp, hc]
+              simp [this, Out.forwards, hp]
+              intro h; cases t <;> simp_all
     | sGreet ms =>
       have : r = (σ.setPhase cid .closed, .unmodelled) := by rw [hr]; unfold step; simp [hp]
       simp [this, State.setPhase, Out.forwards]; intro c hne; simp [hne]
@@ -82,7 +87,7 @@ private theorem step_summary (L : Lib) (v : Validator) (m : Mode) (σ : State) (
         simp [this, State.setPhase, Out.forwards]; intro c hne; simp [hne]
       · have : r = (σ.setPhase cid .closed, .sNoMethod) := by rw [hr]; unfold step; simp [hp, hm]
         simp [this, State.setPhase, Out.forwards]; intro c hne; simp [hne]
-    | req connect hs =>
+    | req connect big hs =>
       have : r = (σ.setPhase cid .closed, .unmodelled) := by rw [hr]; unfold step; simp [hp]
       simp [this, State.setPhase, Out.forwards]; intro c hne; simp [hne]
     | sAuth u p =>
@@ -101,7 +106,7 @@ private theorem step_summary (L : Lib) (v : Validator) (m : Mode) (σ : State) (
       · have : r = (σ.setPhase cid .closed, .sAuthFail) := by
           rw [hr]; unfold step; simp [hp, socks5AuthHook, hc]
         simp [this, State.setPhase, Out.forwards]; intro c hne; simp [hne]
-    | req connect hs =>
+    | req connect big hs =>
       have : r = (σ.setPhase cid .closed, .unmodelled) := by rw [hr]; unfold step; simp [hp]
       simp [this, State.setPhase, Out.forwards]; intro c hne; simp [hne]
     | sGreet ms =>
@@ -115,7 +120,7 @@ private theorem step_summary (L : Lib) (v : Validator) (m : Mode) (σ : State) (
     | sConnect =>
       have : r = (σ.setPhase cid (.http true), .sConnected) := by rw [hr]; unfold step; simp [hp]
       simp [this, State.setPhase]; intro c hne; simp [hne]
-    | req connect hs =>
+    | req connect big hs =>
       have : r = (σ.setPhase cid .closed, .unmodelled) := by rw [hr]; unfold step; simp [hp]
       simp [this, State.setPhase, Out.forwards]; intro c hne; simp [hne]
     | sGreet ms =>
@@ -245,8 +250,9 @@ private theorem reach_inv (L : Lib) (v : Validator) (modes : Nat → Mode) :
 /-- what "an authentication-required answer instead" means, by phase and event -/
 def AuthRequiredAnswer (m : Mode) (phase : Phase) (e : Ev) (phase' : Phase) (o : Out) : Prop :=
   match phase, e with
-  | .http false, .req connect _ =>
-      if connect && !m.isHttpProxy then o = .invalid ∧ phase' = .closed      -- CONNECT where none is allowed: 400 + close
+  | .http false, .req connect big _ =>
+      if !connect && big then o = .tooLarge ∧ phase' = .closed                -- 413 + close before any authentication
+      else if connect && !m.isHttpProxy then o = .invalid ∧ phase' = .closed      -- CONNECT where none is allowed: 400 + close
       else o = .deny (if m.isHttpProxy then 407 else 401) ∧ phase' = .http false
   | .sGreet, .sGreet ms =>
       if ms.contains 2 then o = .sMethod 2 ∧ phase' = .sAuth                 -- "use user/password"
@@ -285,7 +291,7 @@ theorem auth_required_answer (L : Lib) (v : Validator) (modes : Nat → Mode)
     | true => exact hnot _ (hinv.2 cid (Or.inl hp))
     | false =>
       cases e with
-      | req connect hs =>
+      | req connect big hs =>
         have hc : credsOk L v (modes cid) hs = false := by simpa [presentsAccepted] using hacc_e
         cases connect with
         | true =>
@@ -297,9 +303,14 @@ theorem auth_required_answer (L : Lib) (v : Validator) (modes : Nat → Mode)
               rw [hr]; unfold step; simp [hp, hpl]
             simp [this, AuthRequiredAnswer, hpl, State.setPhase]
         | false =>
-          have : r = (σ, .deny (authCode (modes cid))) := by
-            rw [hr]; unfold step; simp [hp, requestheadersHook, hnauth, authenticateHttp, hc]
-          simp [this, AuthRequiredAnswer, authCode, hp]
+          cases big with
+          | true =>
+            have : r = (σ.setPhase cid .closed, .tooLarge) := by rw [hr]; unfold step; simp [hp]
+            simp [this, AuthRequiredAnswer, State.setPhase]
+          | false =>
+            have : r = (σ, .deny (authCode (modes cid))) := by
+              rw [hr]; unfold step; simp [hp, requestheadersHook, hnauth, authenticateHttp, hc]
+            simp [this, AuthRequiredAnswer, authCode, hp]
       | sGreet ms =>
         have : r = (σ.setPhase cid .closed, .unmodelled) := by rw [hr]; unfold step; simp [hp]
         simp [this, AuthRequiredAnswer, State.setPhase, Out.forwards]
@@ -317,7 +328,7 @@ theorem auth_required_answer (L : Lib) (v : Validator) (modes : Nat → Mode)
         simp [this, AuthRequiredAnswer, State.setPhase, hm]
       · have : r = (σ.setPhase cid .closed, .sNoMethod) := by rw [hr]; unfold step; simp [hp, hm]
         simp [this, AuthRequiredAnswer, State.setPhase, hm]
-    | req connect hs =>
+    | req connect big hs =>
       have : r = (σ.setPhase cid .closed, .unmodelled) := by rw [hr]; unfold step; simp [hp]
       simp [this, AuthRequiredAnswer, State.setPhase, Out.forwards]
     | sAuth u p =>
@@ -333,7 +344,7 @@ theorem auth_required_answer (L : Lib) (v : Validator) (modes : Nat → Mode)
       have : r = (σ.setPhase cid .closed, .sAuthFail) := by
         rw [hr]; unfold step; simp [hp, socks5AuthHook, hc]
       simp [this, AuthRequiredAnswer, State.setPhase]
-    | req connect hs =>
+    | req connect big hs =>
       have : r = (σ.setPhase cid .closed, .unmodelled) := by rw [hr]; unfold step; simp [hp]
       simp [this, AuthRequiredAnswer, State.setPhase, Out.forwards]
     | sGreet ms =>
@@ -420,17 +431,17 @@ private theorem parse_wellformed (L : Lib) (value u p : Text) (h : WellFormedCre
     (2) a SOCKS5 user/password message decoding to `(u, p)` is answered `01 00` and the handshake continues. -/
 theorem validator_accepts_implies_path_accepts (L : Lib) (v : Validator) (m : Mode) (σ : State) (cid : Nat)
     (u p : Text) (hacc : v.accepts L u p = true) :
-    (∀ hs t, WellFormedCred L (hdrGet hs (authName m)) u p → σ.phase cid = .http t →
-        (∃ hs', (step L (some v) m σ cid (.req false hs)).2 = .fwd hs') ∧
+    (∀ hs t big, WellFormedCred L (hdrGet hs (authName m)) u p → σ.phase cid = .http t →
+        (∃ hs', (step L (some v) m σ cid (.req false false hs)).2 = .fwd hs') ∧
         (m.isHttpProxy = true → t = false →
-          (step L (some v) m σ cid (.req true hs)).2 = .tunnel ∧
-          cid ∈ (step L (some v) m σ cid (.req true hs)).1.authd ∧
-          (step L (some v) m σ cid (.req true hs)).1.phase cid = .http true)) ∧
+          (step L (some v) m σ cid (.req true big hs)).2 = .tunnel ∧
+          cid ∈ (step L (some v) m σ cid (.req true big hs)).1.authd ∧
+          (step L (some v) m σ cid (.req true big hs)).1.phase cid = .http true)) ∧
     (∀ ub pb, L.sockDecode ub = u → L.sockDecode pb = p → σ.phase cid = .sAuth →
         (step L (some v) m σ cid (.sAuth ub pb)).2 = .sAuthOk ∧
         (step L (some v) m σ cid (.sAuth ub pb)).1.phase cid = .sConnect) := by
   constructor
-  · intro hs t hw hp
+  · intro hs t big hw hp
     have hc : credsOk L v m hs = true := by
       unfold credsOk; rw [parse_wellformed L _ u p hw]; exact hacc
     constructor
@@ -439,7 +450,7 @@ theorem validator_accepts_implies_path_accepts (L : Lib) (v : Validator) (m : Mo
       · exact ⟨hdrDel hs (authName m), by unfold step; simp [hp, requestheadersHook, ha, authenticateHttp, hc]⟩
     · intro hm ht
       subst ht
-      have : step L (some v) m σ cid (.req true hs) =
+      have : step L (some v) m σ cid (.req true big hs) =
           (({ σ with authd := cid :: σ.authd } : State).setPhase cid (.http true), .tunnel) := by
         unfold step; simp [hp, hm, httpConnectHook, authenticateHttp, hc]
       simp [this, State.setPhase]
@@ -469,9 +480,9 @@ private theorem hdrGet_del (hs : List Hdr) (n : Bytes) : hdrGet (hdrDel hs n) n 
     such field remains, every other field is kept in order; and in *every* case a forwarded field list is the
     received one or that filtered one (the hooks never add or alter a field). -/
 theorem credential_header_removed (L : Lib) (v : Validator) (modes : Nat → Mode)
-    (pre : List (Nat × Ev)) (cid : Nat) (connect : Bool) (hs hs' : List Hdr)
+    (pre : List (Nat × Ev)) (cid : Nat) (connect big : Bool) (hs hs' : List Hdr)
     (hout : (step L (some v) (modes cid) (finalState L (some v) modes (State.init modes) pre) cid
-              (.req connect hs)).2 = .fwd hs') :
+              (.req connect big hs)).2 = .fwd hs') :
     (hs' = hs ∨ hs' = hdrDel hs (authName (modes cid))) ∧
     ((∀ e', (cid, e') ∈ pre → presentsAccepted L v (modes cid) e' = false) →
       hs' = hdrDel hs (authName (modes cid)) ∧
@@ -491,39 +502,45 @@ theorem credential_header_removed (L : Lib) (v : Validator) (modes : Nat → Mod
     | true =>
       by_cases hpl : ((modes cid).isHttpProxy && !t) = true
       · by_cases hc : credsOk L v (modes cid) hs = true
-        · have : step L (some v) (modes cid) σ cid (.req true hs) =
+        · have : step L (some v) (modes cid) σ cid (.req true big hs) =
               (({ σ with authd := cid :: σ.authd } : State).setPhase cid (.http true), .tunnel) := by
             unfold step; simp [hp, hpl, httpConnectHook, authenticateHttp, hc]
           rw [this] at hout; simp at hout
-        · have : step L (some v) (modes cid) σ cid (.req true hs) = (σ, .deny (authCode (modes cid))) := by
+        · have : step L (some v) (modes cid) σ cid (.req true big hs) = (σ, .deny (authCode (modes cid))) := by
             unfold step; simp [hp, hpl, httpConnectHook, authenticateHttp, hc]
           rw [this] at hout; simp at hout
-      · have : step L (some v) (modes cid) σ cid (.req true hs) = (σ.setPhase cid .closed, .invalid) := by
+      · have : step L (some v) (modes cid) σ cid (.req true big hs) = (σ.setPhase cid .closed, .invalid) := by
           unfold step; simp [hp, hpl]
         rw [this] at hout; simp at hout
     | false =>
-      by_cases ha : cid ∈ σ.authd
-      · have : step L (some v) (modes cid) σ cid (.req false hs) = (σ, .fwd hs) := by
-          unfold step; simp [hp, requestheadersHook, ha]
-        rw [this] at hout
-        simp only [Out.fwd.injEq] at hout
-        subst hout
-        refine ⟨Or.inl rfl, ?_⟩
-        intro hnone
-        rcases hinv.1 cid ha with h | ⟨e', hmem, hacc⟩
-        · exact h.elim
-        · rw [hnone e' hmem] at hacc; cases hacc
-      · by_cases hc : credsOk L v (modes cid) hs = true
-        · have : step L (some v) (modes cid) σ cid (.req false hs) =
-              (σ, .fwd (hdrDel hs (authName (modes cid)))) := by
-            unfold step; simp [hp, requestheadersHook, ha, authenticateHttp, hc]
+      cases big with
+      | true =>
+        have : step L (some v) (modes cid) σ cid (.req false true hs) = (σ.setPhase cid .closed, .tooLarge) := by
+          unfold step; simp [hp]
+        rw [this] at hout; simp at hout
+      | false =>
+        by_cases ha : cid ∈ σ.authd
+        · have : step L (some v) (modes cid) σ cid (.req false false hs) = (σ, .fwd hs) := by
+            unfold step; simp [hp, requestheadersHook, ha]
           rw [this] at hout
           simp only [Out.fwd.injEq] at hout
           subst hout
-          exact ⟨Or.inr rfl, fun _ => ⟨rfl, hdrDel_none hs _, hdrGet_del hs _⟩⟩
-        · have : step L (some v) (modes cid) σ cid (.req false hs) = (σ, .deny (authCode (modes cid))) := by
-            unfold step; simp [hp, requestheadersHook, ha, authenticateHttp, hc]
-          rw [this] at hout; simp at hout
+          refine ⟨Or.inl rfl, ?_⟩
+          intro hnone
+          rcases hinv.1 cid ha with h | ⟨e', hmem, hacc⟩
+          · exact h.elim
+          · rw [hnone e' hmem] at hacc; cases hacc
+        · by_cases hc : credsOk L v (modes cid) hs = true
+          · have : step L (some v) (modes cid) σ cid (.req false false hs) =
+                (σ, .fwd (hdrDel hs (authName (modes cid)))) := by
+              unfold step; simp [hp, requestheadersHook, ha, authenticateHttp, hc]
+            rw [this] at hout
+            simp only [Out.fwd.injEq] at hout
+            subst hout
+            exact ⟨Or.inr rfl, fun _ => ⟨rfl, hdrDel_none hs _, hdrGet_del hs _⟩⟩
+          · have : step L (some v) (modes cid) σ cid (.req false false hs) = (σ, .deny (authCode (modes cid))) := by
+              unfold step; simp [hp, requestheadersHook, ha, authenticateHttp, hc]
+            rw [this] at hout; simp at hout
 
 /-! ### non-vacuity and sanity (computed by the kernel) -/
 
@@ -556,20 +573,20 @@ example : splitWs genIsSpace [0xa0, 66, 0x3000, 67, 32] = [[66], [67]] := by dec
 -- then authenticates on a CONNECT, and connection 1 (reverse) stays unauthenticated
 private def modes0 : Nat → Mode := fun c => if c = 0 then .regular else .reverse
 private def hist0 : List (Nat × Ev) :=
-  [(0, .req false []), (1, .req false [⟨pa, cred0⟩]), (0, .req true [⟨pa, cred0⟩]), (0, .req false []), (1, .req false [])]
+  [(0, .req false false []), (1, .req false false [⟨pa, cred0⟩]), (0, .req true false [⟨pa, cred0⟩]), (0, .req false false []), (1, .req false false [])]
 
 example : run L0 (some single0) modes0 (State.init modes0) hist0 =
     [.deny 407, .deny 401, .tunnel, .fwd [], .deny 401] := by decide +kernel
 example : ∃ (i cid : Nat) (e : Ev) (o : Out), hist0[i]? = some (cid, e) ∧
     (run L0 (some single0) modes0 (State.init modes0) hist0)[i]? = some o ∧ o.forwards = true :=
-  ⟨2, 0, .req true [⟨pa, cred0⟩], Out.tunnel, rfl, by decide +kernel, rfl⟩
+  ⟨2, 0, .req true false [⟨pa, cred0⟩], Out.tunnel, rfl, by decide +kernel, rfl⟩
 example : WellFormedCred L0 (hdrGet [⟨pa, cred0⟩] (authName .regular)) [117] [112, 97, 58, 115, 115] :=
   ⟨[66, 97, 115, 105, 99], [100, 88, 78, 108], by decide +kernel, by decide +kernel, by decide +kernel,
    by decide +kernel, by decide +kernel, by decide, by decide +kernel, by decide +kernel, by decide⟩
 example : single0.accepts L0 [117] [112, 97, 58, 115, 115] = true := by decide +kernel
 -- header removal on the authenticating request; other fields kept
 example : (step L0 (some single0) .reverse (State.init modes0) 1
-    (.req false [⟨strBytes "X-A", [49]⟩, ⟨strBytes "AUTHORIZATION", cred0⟩, ⟨pa, [50]⟩])).2 =
+    (.req false false [⟨strBytes "X-A", [49]⟩, ⟨strBytes "AUTHORIZATION", cred0⟩, ⟨pa, [50]⟩])).2 =
     .fwd [⟨strBytes "X-A", [49]⟩, ⟨pa, [50]⟩] := by decide +kernel
 -- SOCKS5: wrong pair -> 01 01, right pair -> 01 00
 example : (step L0 (some single0) .socks5 ((State.init (fun _ => .socks5)).setPhase 0 .sAuth) 0
